@@ -6,10 +6,11 @@ package main
 
 import (
 	"fmt"
-	"os"
 	"go/constant"
 	"go/token"
 	"go/types"
+	"os"
+	"strings"
 
 	"golang.org/x/tools/go/ssa"
 )
@@ -29,23 +30,25 @@ type Exec struct {
 	Unroll   int
 	Budget   bool // exceeded
 	// external callbacks (func values with Ext set) are reported as events
-	Unsupported map[string]int
+	Unsupported  map[string]int
 	noteWrapConv int
 	// hook for call summaries supplied by a rule (return handled=true to override)
 	CallHook func(ex *Exec, st *State, fr *Frame, call ssa.CallInstruction, callee *ssa.Function, args []Val) ([]callRes, bool)
 	// inline policy: functions that must not be inlined (treated as unknown)
-	NoInline map[*ssa.Function]bool
+	NoInline   map[*ssa.Function]bool
+	NoInlineFn func(*ssa.Function) bool // lazily decided variant of NoInline (maypanic.go)
 	// PanicIsEvent: record panics as events and stop the path
-	WatchEdges map[edge]bool
+	WatchEdges   map[edge]bool
 	inInitGlobal bool
 	MonoOf       map[*Sym]*FloatV // integer symbols that are conversions of a float value (keeps its normal form)
-	LazyPtr    bool // materialise unknown pointer fields on first load
+	LazyPtr      bool             // materialise unknown pointer fields on first load
 	// WidenAtEntry: explore, at every loop entry, one generic iteration (heap forgotten, loop phis unknown) that
 	// subsumes all iterations; concrete unrolling beyond Unroll visits is then simply cut. Keeps path counts linear.
-	WidenAtEntry bool
-	texts        map[string]textMeaning // abs_text.go
-	WriterContract bool // unknown io.Writer: split each Write into (all accepted, nil) / (short, error)
-	Stats      struct{ Instrs, Calls, Forks, Widen, CopyLoops int }
+	WidenAtEntry   bool
+	texts          map[string]textMeaning // abs_text.go
+	WriterContract bool                   // unknown io.Writer: split each Write into (all accepted, nil) / (short, error)
+	FmtModel       bool                   // abs_fmt.go: model what fmt/strconv/hex produce as texts
+	Stats          struct{ Instrs, Calls, Forks, Widen, CopyLoops int }
 }
 
 type Frame struct {
@@ -53,10 +56,11 @@ type Frame struct {
 	regs    map[ssa.Value]Val
 	visits  map[*ssa.BasicBlock]int
 	widened map[*ssa.BasicBlock]bool
-	phiHist map[*ssa.Phi]Val // value at the previous visit of the loop head
+	phiHist map[*ssa.Phi]Val     // value at the previous visit of the loop head
 	kept    map[*ssa.Phi]keptInv // invariants kept at widening (checked inductively)
 	wctx    map[*ssa.BasicBlock]*widenCtx
 	generic map[*ssa.BasicBlock]bool
+	capture map[*ssa.BasicBlock]*capCtx // abs_maploop.go: arrivals over a back edge are recorded instead of continued
 	defers  []deferred
 	depth   int
 	stack   []*ssa.Function
@@ -120,11 +124,11 @@ type Outcome struct {
 }
 
 type callRes struct {
-	st  *State
-	ret Val // single value or *TupleV
+	st    *State
+	ret   Val // single value or *TupleV
 	panic bool
-	msg string
-	pos string
+	msg   string
+	pos   string
 }
 
 func NewExec(p *Program) *Exec {
@@ -149,6 +153,12 @@ func (fr *Frame) clone() *Frame {
 		n.generic = make(map[*ssa.BasicBlock]bool, len(fr.generic))
 		for k, v := range fr.generic {
 			n.generic[k] = v
+		}
+	}
+	if fr.capture != nil {
+		n.capture = make(map[*ssa.BasicBlock]*capCtx, len(fr.capture))
+		for k, v := range fr.capture {
+			n.capture[k] = v
 		}
 	}
 	if fr.wctx != nil {
@@ -281,12 +291,21 @@ func (ex *Exec) enter(fr *Frame, st *State, b *ssa.BasicBlock, prev *ssa.BasicBl
 			vals = append(vals, ex.eval(fr, st, phi.Edges[idx]))
 		}
 	}
+	if isHead && prev != nil && fr.capture != nil {
+		if cc := fr.capture[b]; cc != nil && ex.loopHeads(fr.fn)[b].Body[prev] {
+			cc.arrivals = append(cc.arrivals, capArrival{st: st, vals: vals})
+			return nil
+		}
+	}
 	if isHead && prev != nil {
 		if li := ex.loopHeads(fr.fn)[b]; !li.Body[prev] {
 			if outs, ok := ex.copyLoop(fr, st, li, phis, vals); ok {
 				return outs
 			}
 			if outs, ok := ex.sumLoop(fr, st, li, phis, vals); ok {
+				return outs
+			}
+			if outs, ok := ex.mapLoop(fr, st, li, phis, vals, prev); ok {
 				return outs
 			}
 		}
@@ -406,6 +425,7 @@ func (ex *Exec) enter(fr *Frame, st *State, b *ssa.BasicBlock, prev *ssa.BasicBl
 		if fr.visits[b] > ex.Unroll {
 			ex.Stats.Widen++
 			forget := map[*ssa.Phi]bool{}
+			forgetAll := map[*ssa.Phi]bool{}
 			for {
 				st2, fr2 := st.Clone(), fr.clone()
 				wc := &widenCtx{failed: map[*ssa.Phi]bool{}}
@@ -423,6 +443,29 @@ func (ex *Exec) enter(fr *Frame, st *State, b *ssa.BasicBlock, prev *ssa.BasicBl
 							continue
 						}
 					}
+					// second candidate for a counter (constant step): it never passes its starting side — everything from
+					// the smaller of the two last values upwards (step > 0) / from the larger downwards (step < 0)
+					if hv, ok := fr.phiHist[phi]; ok && forget[phi] && !forgetAll[phi] {
+						if li := ex.loopHeads(fr.fn)[b]; li != nil {
+							pi, okP := hv.(*IntV)
+							ci, okC := vals[i].(*IntV)
+							if k, okS := phiStep(phi, li); okS && k != 0 && okP && okC {
+								pl, ph := st.Range(pi)
+								cl, ch := st.Range(ci)
+								lo, hi := typeRange(ci.W, ci.Signed)
+								if k > 0 {
+									lo, hi = min64(pl, cl), hi-k
+								} else {
+									lo, hi = lo-k, max64(ph, ch)
+								}
+								r := st2.freshInt("cnt:"+phi.Name(), ci.W, ci.Signed)
+								st2.refineSym(r.T.Syms[0], lo, hi)
+								fr2.regs[phi] = r
+								fr2.kept[phi] = keptInv{lo: lo, hi: hi}
+								continue
+							}
+						}
+					}
 					fr2.regs[phi] = ex.topOf(st2, phi.Type(), "widen:"+phi.Name())
 				}
 				outs := ex.execFrom(fr2, st2, b, firstNonPhi(b), prev)
@@ -430,6 +473,9 @@ func (ex *Exec) enter(fr *Frame, st *State, b *ssa.BasicBlock, prev *ssa.BasicBl
 					return outs
 				}
 				for phi := range wc.failed {
+					if forget[phi] {
+						forgetAll[phi] = true
+					}
 					forget[phi] = true
 				}
 			}
@@ -525,6 +571,9 @@ func (ex *Exec) globalObj(st *State, g *ssa.Global) int {
 	}
 	if _, ok := st.heap[id]; !ok {
 		if cv := ex.constGlobal(g); cv != nil {
+			st.heap[id] = cv
+			ex.constObj[id] = true
+		} else if cv := ex.constTableGlobal(g); cv != nil {
 			st.heap[id] = cv
 			ex.constObj[id] = true
 		} else if ex.sentinelErr(g) {
@@ -1152,6 +1201,13 @@ func (ex *Exec) binop(fr *Frame, st *State, x *ssa.BinOp) Val {
 			if as.Known && bs.Known {
 				return &StrV{Known: true, S: as.S + bs.S}
 			}
+			if ex.FmtModel {
+				s1, ok1 := ex.strSegs(st, as)
+				s2, ok2 := ex.strSegs(st, bs)
+				if ok1 && ok2 {
+					return ex.strOfSegs(st, append(append([]Seg{}, s1...), s2...))
+				}
+			}
 			return &StrV{}
 		}
 	}
@@ -1538,14 +1594,57 @@ func phiStep(phi *ssa.Phi, li *loopInfo) (int64, bool) {
 // instructions address (resolved in the state at loop entry); otherwise the whole heap.
 func (ex *Exec) havocLoop(fr *Frame, st *State, li *loopInfo) {
 	var roots []Val
+	var reach []Val
+	hasCall := false
 	precise := true
 	for b := range li.Body {
 		for _, in := range b.Instrs {
 			switch x := in.(type) {
 			case *ssa.Call:
-				if _, isB := x.Call.Value.(*ssa.Builtin); !isB {
-					precise = false
+				if _, isB := x.Call.Value.(*ssa.Builtin); isB {
+					continue
 				}
+				// a call inside the loop: earlier iterations may have changed whatever is reachable from its operands (and
+				// the package-level variables); operands computed inside the loop are unknown here, so they must be scalars.
+				// A read from a bytes.Reader changes only the reader's position and the destination buffer, not the
+				// bytes it reads from.
+				var ops []ssa.Value
+				ops = append(ops, x.Call.Value)
+				ops = append(ops, x.Call.Args...)
+				var vals []Val
+				okOps := true
+				for _, op := range ops {
+					switch o := op.(type) {
+					case *ssa.Const, *ssa.Function, *ssa.Builtin:
+						continue
+					case ssa.Instruction:
+						if li.Body[o.Block()] {
+							if !pointerFree(op.Type()) {
+								okOps = false
+							}
+							continue
+						}
+					}
+					vals = append(vals, ex.eval(fr, st, op))
+				}
+				if !okOps {
+					precise = false
+					continue
+				}
+				if name := callName(x); (x.Call.IsInvoke() && (x.Call.Method.Name() == "Read" || x.Call.Method.Name() == "ReadByte")) || strings.HasPrefix(name, "(*bytes.Reader).Read") {
+					if iv, ok := vals[0].(*IfaceV); ok && !iv.Unk && iv.Dyn != nil && iv.Dyn.String() == "*bytes.Reader" {
+						roots = append(roots, iv.V)
+						roots = append(roots, vals[1:]...)
+						continue
+					}
+					if pv, ok := vals[0].(*PtrV); ok && strings.HasPrefix(name, "(*bytes.Reader).Read") {
+						roots = append(roots, pv)
+						roots = append(roots, vals[1:]...)
+						continue
+					}
+				}
+				reach = append(reach, vals...)
+				hasCall = true
 			case *ssa.Go, *ssa.Defer, *ssa.Send, *ssa.MapUpdate:
 				precise = false
 			case *ssa.Store:
@@ -1586,6 +1685,9 @@ func (ex *Exec) havocLoop(fr *Frame, st *State, li *loopInfo) {
 		ex.havocAll(st, "generic iteration of loop in "+fr.fn.Name())
 		return
 	}
+	if hasCall {
+		ex.havocReachable(st, "calls in the generic iteration of loop in "+fr.fn.Name(), reach)
+	}
 	// only the directly addressed objects (not what they point to: stores go to these objects themselves)
 	st.note("havoc objects written by loop in %s", fr.fn.Name())
 	for _, r := range roots {
@@ -1618,7 +1720,9 @@ func (ex *Exec) havocLoop(fr *Frame, st *State, li *loopInfo) {
 }
 
 // copyLoop: summary of the element-wise copy idiom
-//     for i := c0; i < n; i++ { dst[i] = src[i] }        (also: for i := range src { dst[i] = src[i] } / for i, v := range src { dst[i] = v })
+//
+//	for i := c0; i < n; i++ { dst[i] = src[i] }        (also: for i := range src { dst[i] = src[i] } / for i, v := range src { dst[i] = v })
+//
 // as copy(dst[c0:n], src[c0:n]). Applied only when the loop consists of exactly the head and one body block doing
 // nothing else, dst/src/n are defined outside the loop, and c0 <= n <= len(dst), len(src) are decided in the state
 // (otherwise the generic loop treatment applies and reports possible bounds violations as usual).
@@ -1827,7 +1931,9 @@ func (ex *Exec) guardBound(fr *Frame, st *State, li *loopInfo, phi *ssa.Phi) *In
 }
 
 // sumLoop: summary of the accumulation idiom
-//     for i := c0; i < n; i++ { acc += T(src[i]) }     (also the range forms)
+//
+//	for i := c0; i < n; i++ { acc += T(src[i]) }     (also the range forms)
+//
 // as acc = acc0 + sum of the elements src[c0:n]: known elements are added as terms, an opaque run contributes the
 // derived symbol "sum(<run>)" (non-negative, at most 255 per byte). Applied only when the loop consists of exactly the
 // head and one body block doing nothing else and c0 <= n <= len(src) is decided.
@@ -2062,4 +2168,29 @@ func (ex *Exec) sumLoop(fr *Frame, st *State, li *loopInfo, phis []*ssa.Phi, val
 	fr.regs[cmp] = &BoolV{Known: true, Val: false}
 	ex.Stats.CopyLoops++
 	return ex.enter(fr, st, exit, head), true
+}
+
+// pointerFree: values of this type hold no reference into the heap.
+func pointerFree(t types.Type) bool {
+	switch u := t.Underlying().(type) {
+	case *types.Basic:
+		return u.Kind() != types.UnsafePointer
+	case *types.Struct:
+		for i := 0; i < u.NumFields(); i++ {
+			if !pointerFree(u.Field(i).Type()) {
+				return false
+			}
+		}
+		return true
+	case *types.Array:
+		return pointerFree(u.Elem())
+	case *types.Tuple:
+		for i := 0; i < u.Len(); i++ {
+			if !pointerFree(u.At(i).Type()) {
+				return false
+			}
+		}
+		return true
+	}
+	return false
 }
